@@ -120,6 +120,41 @@ def run(chk, facts):
     sp = lets.get("source_option_pairs")
     spairs = lets.get("source_pairs")
     ok = sp is not None and spairs is not None and src(spairs).replace(" ", "") == "sources.iter().zip(in_absolute_paths.iter())"
+    # lists that are paired by position must have one element per path: a loop that builds one of them pushes exactly once on every
+    # path through its body that does not leave the function (no `continue`, no conditional push); an iterator chain that builds
+    # one has no element-dropping adapter (filter, filter_map, flat_map, take, skip ..)
+    try:
+        from .common import fn_paths
+        n_loops = 0
+        for lp_ in [n_ for n_ in walk(tdf["body"]) if n_.get("k") == "for"]:
+            pushes_here = [n_ for n_ in walk(lp_["body"]) if n_.get("k") == "mcall" and n_["m"] == "push"]
+            if not pushes_here:
+                continue
+            n_loops += 1
+            vec_name = src(strip(pushes_here[0]["recv"]))
+            bad_p = None
+            for p_ in fn_paths(lp_["body"]):
+                if p_.how == "return":
+                    continue      # leaves the function (an error): nothing is paired afterwards
+                k_ = sum(1 for ev in p_.events if ev.get("k") == "mcall" and ev["m"] == "push" and src(strip(ev["recv"])) == vec_name)
+                if k_ != 1:
+                    bad_p = bad_p or (k_, p_.how, [c for c, pol in p_.conds if pol][-1:])
+            chk.ob("R-C13-3", f"one-per-path:{vec_name}", bad_p is None, f"the loop that fills `{vec_name}` pushes exactly once per path" if bad_p is None else
+                   f"the loop over the input paths pushes {bad_p[0]} element(s) into `{vec_name}` on a path ({bad_p[1]}, {bad_p[2]}): `{vec_name}` no longer has one element per "
+                   "path, so the position-wise pairing with the path lists shifts - outputs land under the wrong file name", loc)
+        DROP = {"filter", "filter_map", "flat_map", "flatten", "take", "skip", "take_while", "skip_while", "step_by", "dedup", "unique"}
+        for name_ in ("in_absolute_paths", "out_absolute_paths", "sources"):
+            for n_ in walk(tdf["body"]):
+                if n_.get("k") == "local" and [x["name"] for x in walk(n_["pat"]) if x.get("k") == "pident"] == [name_] and n_.get("init") is not None:
+                    ms = [m_["m"] for m_ in walk(n_["init"]) if m_.get("k") == "mcall" and m_["m"] in DROP]
+                    if ms:
+                        chk.ob("R-C13-3", f"one-per-path:{name_}", False, f"`{name_}` is built through `{ms[0]}`, which can drop elements: the lists paired by position differ in length", loc)
+        chained = "sources" in lets and any(m_.get("k") == "mcall" and m_["m"] in ("map", "collect") for m_ in walk(lets["sources"]))
+        chk.ob("R-C13-3", "one-per-path:sources-built", n_loops >= 1 or chained,
+               (f"{n_loops} list-building loop(s) in transpile_dir examined" if n_loops >= 1 else "`sources` is built by an iterator chain without element-dropping adapters") if n_loops >= 1 or chained else
+               "neither a list-building loop nor a chain that builds `sources` was found in transpile_dir (how are the sources read?)", loc)
+    except AnchorError as e_:
+        chk.anchor_fail("R-C13-3", e_)
     chk.ob("R-C13-3", "sources-zip-paths", ok, "each source text is paired with the path it was read from" if ok else "the pairing of source texts and paths changed", loc)
 
     # order preservation inside mamba_to_python
